@@ -72,6 +72,9 @@ func GenCase(t *rapid.T, bias Bias, stratum int) Case {
 		var calls []Call
 		for k := 0; k < nCalls && total < 60; k++ {
 			n := rapid.IntRange(1, 10).Draw(t, "msgs")
+			if rapid.IntRange(0, 7).Draw(t, "bigCall") == 0 {
+				n = rapid.IntRange(13, 40).Draw(t, "bigCallMsgs") // long enough for anything that treats short slices specially
+			}
 			call := Call{DelayUs: rapid.SampledFrom([]int{0, 0, 50, 500, 3000}).Draw(t, "delayUs")}
 			for m := 0; m < n && total < 60; m++ {
 				msg := Msg{KeyLen: rapid.SampledFrom([]int{-1, 0, 1, 3, 8}).Draw(t, "keyLen"), KeySeed: rapid.IntRange(0, 5).Draw(t, "keySeed"),
